@@ -1,7 +1,7 @@
 # C17 — timestamp offsets exact, invertible, refused before the epoch; earliest time <= every stored time.
 import common
 THEOREMS = ["C17_offset_exact", "C17_add_inverse", "C17_compare_lt", "C17_compare_le", "C17_refuse", "C17_rate0",
-            "C17_no_ub", "C17_block", "C17_block_offsets", "C17_nonvacuous"]
+            "C17_no_ub", "C17_block", "C17_block_offsets", "C17_blocks_of_histories", "C17_block_offsets_roundtrip", "C17_nonvacuous"]
 M63, M64 = 2 ** 63, 2 ** 64
 I64MIN, I64MAX = -M63, M63 - 1
 
